@@ -14,6 +14,7 @@ import (
 // lists are sorted host-side (SJ).
 const prelude = `
 var G = this;
+REG("G", G);
 var OTS = Object.prototype.toString, GOPN = Object.getOwnPropertyNames, GOPD = Object.getOwnPropertyDescriptor, ISX = Object.isExtensible;
 function CLS(o) { return OTS.call(o); }
 function D(v, depth) {
